@@ -27,7 +27,9 @@ EXPLANATION = (
 RULE_TEXT = (
     "C09.a 3-valued evaluation of each listing predicate on each internal-object row; C09.b scope conjuncts; C09.c key "
     "column agreement writer/ON CONFLICT/PRIMARY KEY/reader join; C09.d side-table lifecycle on DROP TABLE; C09.e quote "
-    "doubling for free-text holes."
+    "doubling for free-text holes; C09.f no comment row without a declared comment; C09.g=C06.e; C09.h WHEN/THEN pairs "
+    "of the columns view / DESCRIBE == type-name oracle; C09.i side-table rows carry the object's own (catalog, schema, "
+    "table); C09.j the (table, comment) pair is never stored on a module-level constant statement."
 )
 TRUSTED = ["CPython ast", "DuckDB: information_schema.tables lists temp tables as LOCAL TEMPORARY in catalog temp; LIKE wildcards _ and %",
            "internal object inventory is derived from fakesnow's own CREATE/ATTACH templates"]
@@ -618,11 +620,21 @@ def rule_no_phantom_comment(ctx):
                           f"information_schema.tables reports the string 'None' as the table's comment")
 
 
+def rule_comment_not_sticky(ctx):
+    """C09.j: "table comments as most recently declared" — the (table, comment) pair travels on the statement that declared
+    it only: a stage that attaches it to a module-level constant statement makes every later statement that is rewritten
+    to that constant record the stale comment again."""
+    from .c19 import rule_constant_nodes
+
+    rule_constant_nodes(ctx, "C09.j")
+
+
 from .c06 import rule_precision_pattern  # noqa: E402  (description of SELECT * must agree on precision and scale)
 
 RULES = [
     ("C09.g", rule_precision_pattern, ("quick", "thorough")),
     ("C09.f", rule_no_phantom_comment, ("quick", "thorough")),
+    ("C09.j", rule_comment_not_sticky, ("quick", "thorough")),
     ("C09.h", rule_type_names, ("quick", "thorough")),
     ("C09.i", rule_bookkeeping_names, ("quick", "thorough")),
     ("C09.a", rule_hidden, ("quick", "thorough")),
